@@ -42,6 +42,10 @@ type c13Case struct {
 	// "name" = example.com:port, "noport" = example.com (default port); the connection always goes to the
 	// real test server
 	Host string `json:",omitempty"`
+	// First: an earlier grpc.PerRPCCredentials option precedes the one described by Creds ("plain" / "secure";
+	// its metadata is zz-first: 1). The later option is the one in force (as with grpc-go); whatever is done
+	// with the earlier one, a credential that requires transport security never crosses plain http.
+	First string `json:",omitempty"`
 }
 
 type testCreds struct {
@@ -200,6 +204,10 @@ func propC13(c c13Case) *Outcome {
 		creds = &testCreds{err: errC13Cred}
 	}
 	if creds != nil {
+		if c.First != "" {
+			o.class("two-credential-options/first=%s", c.First)
+			opts = append(opts, grpc.PerRPCCredentials(&testCreds{md: map[string]string{"zz-first": "1"}, secure: c.First == "secure"}))
+		}
 		opts = append(opts, grpc.PerRPCCredentials(creds))
 	}
 	peers := make([]peer.Peer, c.PeerOpt)
@@ -293,6 +301,9 @@ func propC13(c c13Case) *Outcome {
 	if runs != 1 {
 		return o.failf("handler ran %d times", runs)
 	}
+	if c.First == "secure" && !secureChannel && len(inMD["zz-first"]) > 0 {
+		return o.failf("metadata of a credential that requires transport security (zz-first) reached the handler over plain http")
+	}
 	// merged metadata: per key the multiset union, each source's order preserved
 	caller := c.CallerMD.MD()
 	keys := map[string]bool{}
@@ -382,7 +393,7 @@ func propC13(c c13Case) *Outcome {
 
 func c13Grid() []c13Case {
 	var cs []c13Case
-	for _, car := range []string{cHTTP, cHTTPMux, cInproc} {
+	for _, car := range []string{cHTTP, cHTTPMux, cHTTPPer, cInproc} {
 		for _, tls := range []bool{false, true} {
 			if car == cInproc && tls {
 				continue
@@ -408,7 +419,7 @@ func c13Grid() []c13Case {
 }
 
 func genC13(t *rapid.T) c13Case {
-	c := c13Case{Carrier: rapid.SampledFrom([]string{cHTTP, cHTTPMux, cInproc}).Draw(t, "carrier")}
+	c := c13Case{Carrier: rapid.SampledFrom([]string{cHTTP, cHTTPMux, cHTTPPer, cInproc}).Draw(t, "carrier")}
 	c.TLS = c.Carrier != cInproc && rapid.Bool().Draw(t, "tls")
 	c.Creds = rapid.SampledFrom([]string{"none", "plain", "plain", "secure", "secure", "error"}).Draw(t, "creds")
 	c.Stream = rapid.Bool().Draw(t, "stream")
@@ -416,6 +427,9 @@ func genC13(t *rapid.T) c13Case {
 	c.HdrOpt = rapid.Bool().Draw(t, "hdropt")
 	c.CallerMD = genMD(t, "caller", 3)
 	c.Append = rapid.Bool().Draw(t, "append")
+	if c.Creds != "none" && rapid.IntRange(0, 3).Draw(t, "first") == 0 {
+		c.First = rapid.SampledFrom([]string{"plain", "secure"}).Draw(t, "firstkind")
+	}
 	if c.Carrier != cInproc {
 		c.Host = rapid.SampledFrom([]string{"", "", "ipv6", "name", "noport"}).Draw(t, "host")
 	}
@@ -447,6 +461,7 @@ func init() { registerReplay("C13", propC13) }
 
 const c13Rule = "exhaustive grid {httpgrpc.Server, HandleServices} x {http, https (httptest TLS server)} + in-process x {no creds, creds not requiring security, creds requiring it, creds returning an error} x {unary, stream} x {0,1,2 grpc.Peer options} x {grpc.Header or not}, then rapid-generated credential maps (empty, disjoint, overlapping caller keys) and caller metadata; " +
 	"oracle: security required over http => failure with 0 requests through a counting RoundTripper; credential error => that error, 0 requests; otherwise handler metadata per key = multiset union of caller and credential values with the caller's order kept; grpc.Peer = server host:port and TLSInfo with completed handshake iff https (unary and stream); handler peer likewise; in-process peers have network inproc; " +
+	"also generated since the seeded rounds: credential keys spelled with capitals, failing handlers, caller metadata partly attached with AppendToOutgoingContext, base URL host forms ([::1]:port, name:port, name without port); " +
 	"non-trivial = credentials present or https; distinct by case hash"
 
 func TestC13(t *testing.T) {
